@@ -2101,3 +2101,299 @@ func ruleUsesPrefixScope(c *Ctx) []Obligation {
 	}
 	return obs
 }
+
+// ---------------------------------------------------------------- seed wave 12: TYPEDEF.ORDERKEY, MEMO.KEYARGS, DUP.REPARENT, RO.KINDS
+
+func init() {
+	register(&Rule{Name: "TYPEDEF.ORDERKEY", Props: []string{"C05"}, Floor: 1,
+		Doc: "the order in which typedefs are resolved (which decides which member of a cycle reports it) is by the place of the typedef in the source including the file: the comparator compares Source of both, or the file of their statements",
+		Run: ruleTypedefOrderKey})
+	register(&Rule{Name: "MEMO.KEYARGS", Props: []string{"C09", "C18", "C13"}, Floor: 0,
+		Doc: "a table kept in a long-lived structure that remembers the answer of a lookup f(a, b, …) is keyed by everything the answer depends on: every argument of the call takes part in the key",
+		Run: ruleMemoKeyArgs})
+	register(&Rule{Name: "DUP.REPARENT", Props: []string{"C12", "C04", "C06"}, Floor: 1,
+		Doc: "the deep copier gives every copy it makes of a part of the entry (children, rpc input and output) the copy as its parent",
+		Run: ruleDupReparent})
+	register(&Rule{Name: "RO.KINDS", Props: []string{"C12"}, Floor: 1,
+		Doc: "ReadOnly answers from the kind of an entry only for an rpc's output (always read-only): no other kind ends the ascent to the ancestor that says config true or false",
+		Run: ruleRoKinds})
+}
+
+func ruleTypedefOrderKey(c *Ctx) []Obligation {
+	const R = "TYPEDEF.ORDERKEY"
+	rt := c.Fn("yang.(*typeDictionary).resolveTypedefs")
+	src := c.Fn("yang.Source")
+	stmtT := c.Named("yang", "Statement")
+	con := "resolveTypedefs: the typedefs are ordered by their place in the source, file included"
+	if rt == nil || stmtT == nil {
+		return []Obligation{undecided(R, con, "-", "resolveTypedefs / Statement not found")}
+	}
+	fFile := FieldVar(stmtT, "file")
+	var cmp *ssa.Function
+	var at ssa.Instruction
+	c.eachInstrDeep(rt, func(in ssa.Instruction) {
+		call, isC := in.(*ssa.Call)
+		if !isC || !(calleeIs(call, "sort", "Slice") || calleeIs(call, "sort", "SliceStable")) || len(call.Call.Args) < 2 {
+			return
+		}
+		if mc, isMC := call.Call.Args[1].(*ssa.MakeClosure); isMC {
+			cmp, _ = mc.Fn.(*ssa.Function)
+			at = call
+		}
+	})
+	if cmp == nil {
+		return []Obligation{undecided(R, con, c.Pos(rt.Pos()), "no sort with a comparator closure in resolveTypedefs")}
+	}
+	byFile := false
+	for _, fn := range c.staticReach(cmp, 1) {
+		eachInstr(fn, func(in ssa.Instruction) {
+			if call, isC := in.(*ssa.Call); isC && src != nil && call.Call.StaticCallee() == src {
+				byFile = true
+			}
+			if v, isV := in.(ssa.Value); isV {
+				if _, f, _ := loadedField(v); f == fFile && f != nil {
+					byFile = true
+				}
+			}
+		})
+	}
+	// a key computed before the sort (a list of (source, typedef) pairs) counts as well
+	if !byFile {
+		eachInstr(rt, func(in ssa.Instruction) {
+			if call, isC := in.(*ssa.Call); isC && src != nil && call.Call.StaticCallee() == src && at != nil && (dominates(call, at) || blockReaches(call.Block(), at.Block(), nil) && !blockReaches(at.Block(), call.Block(), nil)) {
+				byFile = true
+			}
+		})
+	}
+	if byFile {
+		return []Obligation{ok(R, con, c.InstrPos(at), "the comparator (or the key made for it) takes the typedef's Source, which names the file")}
+	}
+	return []Obligation{bad(R, con, c.InstrPos(at), "the comparator looks at no file: two typedefs at the same line and column of two files tie, the stable sort keeps them in the order the dictionary (a map) yielded them, and which member of a cycle across the two files reports it changes from run to run")}
+}
+
+func ruleMemoKeyArgs(c *Ctx) []Obligation {
+	const R = "MEMO.KEYARGS"
+	var obs []Obligation
+	var fns []*ssa.Function
+	for _, fn := range c.Funcs {
+		if c.isRepoFn(fn) && fn.Blocks != nil {
+			fns = append(fns, fn)
+		}
+	}
+	sort.Slice(fns, func(i, j int) bool { return fns[i].Pos() < fns[j].Pos() })
+	for _, fn := range fns {
+		n := 0
+		eachInstr(fn, func(in ssa.Instruction) {
+			mu, isMU := in.(*ssa.MapUpdate)
+			if !isMU {
+				return
+			}
+			// a map that lives in a field of a structure (not a local)
+			owner, mf, _ := loadedField(mu.Map)
+			if mf == nil || owner == nil {
+				return
+			}
+			// the value is the answer of a call of a repository function made in this function with arguments that are
+			// parameters of this function
+			v := mu.Value
+			if ex, isE := v.(*ssa.Extract); isE {
+				v = ex.Tuple
+			}
+			if phi, isP := v.(*ssa.Phi); isP {
+				for _, e := range phi.Edges {
+					if call, isC := e.(*ssa.Call); isC {
+						v = call
+					}
+				}
+			}
+			call, isC := v.(*ssa.Call)
+			if !isC {
+				return
+			}
+			cal := call.Call.StaticCallee()
+			if cal == nil || !c.isRepoFn(cal) || c.isConstructor(cal) {
+				return
+			}
+			var params []*ssa.Parameter
+			for _, a := range call.Call.Args {
+				if mi, isMI := a.(*ssa.MakeInterface); isMI {
+					a = mi.X
+				}
+				if p, isP := a.(*ssa.Parameter); isP && p.Parent() == fn {
+					params = append(params, p)
+				}
+			}
+			if len(params) < 2 {
+				return // one argument: the key is that argument or the rule has nothing to compare
+			}
+			n++
+			con := fmt.Sprintf("%s: answer #%d remembered in %s is filed under everything it depends on", c.FnName(fn), n, fieldKey(owner, mf))
+			var missing []string
+			for _, p := range params {
+				if len(fn.Params) > 0 && p == fn.Params[0] && fn.Signature.Recv() != nil {
+					continue // the receiver owns the table
+				}
+				covered := p == mu.Key || derivesFrom(mu.Key, func(x ssa.Value) bool { return x == ssa.Value(p) })
+				// a key that is a structure written on the spot: one of its fields is given the argument
+				if ld, isL := mu.Key.(*ssa.UnOp); isL && !covered {
+					if cell, isA := ld.X.(*ssa.Alloc); isA {
+						for _, r := range refsOf(cell) {
+							fa, isFA := r.(*ssa.FieldAddr)
+							if !isFA {
+								continue
+							}
+							for _, rr := range refsOf(fa) {
+								if st, isS := rr.(*ssa.Store); isS && st.Addr == ssa.Value(fa) && (st.Val == ssa.Value(p) || derivesFrom(st.Val, func(x ssa.Value) bool { return x == ssa.Value(p) })) {
+									covered = true
+								}
+							}
+						}
+					}
+				}
+				// a table per value of that argument (m[a][b])
+				if !covered {
+					if lk, isL := mu.Map.(*ssa.Lookup); isL {
+						covered = derivesFrom(lk.Index, func(x ssa.Value) bool { return x == ssa.Value(p) })
+					}
+					operandClosure(mu.Map, func(x ssa.Value) {
+						if lk, isL := x.(*ssa.Lookup); isL && derivesFrom(lk.Index, func(y ssa.Value) bool { return y == ssa.Value(p) }) {
+							covered = true
+						}
+					})
+				}
+				if !covered {
+					missing = append(missing, p.Name())
+				}
+			}
+			if len(missing) == 0 {
+				obs = append(obs, ok(R, con, c.InstrPos(mu), "every argument of "+c.FnName(cal)+" takes part in the key"))
+			} else {
+				obs = append(obs, bad(R, con, c.InstrPos(mu), fmt.Sprintf("the answer of %s depends on %s, which is not part of the key: the answer remembered for one is handed out for another (two modules that import different modules under one prefix get the same one)", c.FnName(cal), joinStrings(missing, ", "))))
+			}
+		})
+	}
+	return obs
+}
+
+func ruleDupReparent(c *Ctx) []Obligation {
+	const R = "DUP.REPARENT"
+	m := c.entryModel()
+	var copier *ssa.Function
+	for _, w := range c.entryWalkers() {
+		if w.class == "copier" {
+			copier = w.fn
+		}
+	}
+	if copier == nil || m == nil {
+		return []Obligation{undecided(R, "deep copier", "-", "no self-recursive constructor over Entry.Dir found")}
+	}
+	var obs []Obligation
+	n := 0
+	for _, ci := range c.callsToDeep(copier, copier) {
+		call, isC := ci.(*ssa.Call)
+		if !isC {
+			continue
+		}
+		n++
+		con := fmt.Sprintf("%s: copy #%d of a part is given the copy as its parent", c.FnName(copier), n)
+		set := false
+		host := call.Parent() // the copier, or a private helper of it that copies a part
+		for _, r := range refsOf(call) {
+			fa, isF := r.(*ssa.FieldAddr)
+			if !isF {
+				continue
+			}
+			if _, f, _ := fieldOf(fa); f != m.fParent {
+				continue
+			}
+			for _, rr := range refsOf(fa) {
+				if st, isS := rr.(*ssa.Store); isS && st.Addr == ssa.Value(fa) && !isNilConst(st.Val) {
+					set = true
+				}
+			}
+		}
+		// the copy may be stored first and re-parented through the place it was stored in (ne.RPC.Input.Parent = &ne)
+		if !set {
+			for _, r := range refsOf(call) {
+				st, isS := r.(*ssa.Store)
+				if !isS || st.Val != ssa.Value(call) {
+					continue
+				}
+				_, lf, _ := fieldOf(st.Addr)
+				if lf == nil {
+					continue
+				}
+				eachInstr(host, func(in ssa.Instruction) {
+					ps, isPS := in.(*ssa.Store)
+					if !isPS || isNilConst(ps.Val) {
+						return
+					}
+					_, pf, base := fieldOf(ps.Addr)
+					if pf != m.fParent || base == nil {
+						return
+					}
+					if _, bf, _ := loadedField(base); bf == lf {
+						set = true
+					}
+				})
+			}
+		}
+		if set {
+			obs = append(obs, ok(R, con, c.InstrPos(call), "Parent of the copied part is stored"))
+		} else {
+			obs = append(obs, bad(R, con, c.InstrPos(call), "the copied part keeps the parent of the original: from inside a used grouping's action input or output the path, the namespace and the instantiating module are those of the grouping's definition, not of the place it is used"))
+		}
+	}
+	if n == 0 {
+		return []Obligation{undecided(R, "deep copier", c.Pos(copier.Pos()), "the copier does not copy parts by calling itself")}
+	}
+	return obs
+}
+
+func ruleRoKinds(c *Ctx) []Obligation {
+	const R = "RO.KINDS"
+	ro := c.Fn("yang.(*Entry).ReadOnly")
+	entry := c.Named("yang", "Entry")
+	con := "ReadOnly: only the kind of an rpc's output answers by itself"
+	if ro == nil || entry == nil {
+		return []Obligation{undecided(R, con, "-", "(*Entry).ReadOnly not found")}
+	}
+	fKind := FieldVar(entry, "Kind")
+	names, _ := c.entryKinds()
+	var wrong []string
+	tests := 0
+	c.eachInstrDeep(ro, func(in ssa.Instruction) {
+		bo, isB := in.(*ssa.BinOp)
+		if !isB || bo.Op != token.EQL && bo.Op != token.NEQ {
+			return
+		}
+		_, f, _ := loadedField(bo.X)
+		k, isK := constInt(bo.Y)
+		if f != fKind || !isK {
+			return
+		}
+		tests++
+		if names[k] == "OutputEntry" {
+			return
+		}
+		// does one side of the comparison hand back a constant?
+		for _, r := range refsOf(bo) {
+			switch x := r.(type) {
+			case *ssa.If:
+				for _, s := range x.Block().Succs {
+					if rt := terminalReturn(s); rt != nil && len(rt.Results) == 1 {
+						if _, isC := rt.Results[0].(*ssa.Const); isC {
+							wrong = append(wrong, names[k]+" @ "+c.InstrPos(bo))
+						}
+					}
+				}
+			case *ssa.Phi:
+				wrong = append(wrong, names[k]+" @ "+c.InstrPos(bo))
+			}
+		}
+	})
+	if len(wrong) == 0 {
+		return []Obligation{ok(R, con, c.Pos(ro.Pos()), fmt.Sprintf("%d comparison(s) of the kind with a constant; none but OutputEntry leads to a constant answer", tests))}
+	}
+	return []Obligation{bad(R, con, c.Pos(ro.Pos()), "the kind "+joinStrings(dedupe(wrong), ", ")+" ends the ascent with a constant answer: what an ancestor says about config (`config false` on the container around an action or a notification) is not inherited below it")}
+}
